@@ -111,11 +111,26 @@ func (m *lagMeter) finish() time.Duration {
 	return m.max
 }
 
+// c09Exec judges delivery times, so a discrepancy counts only when the same traffic shows it again on a fresh
+// proxy, twice: a withheld reply caused by the proxy follows from the shape of the traffic, one caused by a
+// busy machine does not.
 func c09Exec(c *c09Case) ([]Discrepancy, bool) {
-	f := getFixture("C09", sut.Config{ServerConns: 1}, 3, 0)
-	ds, nt := c09Run(f, c)
-	if len(ds) > 0 {
+	var ds []Discrepancy
+	var nt bool
+	for attempt := 0; attempt < 3; attempt++ {
+		f := getFixture("C09", sut.Config{ServerConns: 1}, 3, 0)
+		ds, nt = c09Run(f, c)
+		if len(ds) == 0 {
+			if attempt > 0 {
+				evidence.For("C09").Add("timing_discrepancies_not_reproduced_on_rerun", 1)
+			}
+			return nil, nt
+		}
 		dropFixture(f)
+		if ds[0].Sig != "C09/reply-withheld" {
+			return ds, nt
+		}
+		time.Sleep(time.Duration(200*(attempt+1)) * time.Millisecond)
 	}
 	return ds, nt
 }
@@ -165,6 +180,7 @@ func c09Run(f *Fixture, c *c09Case) ([]Discrepancy, bool) {
 	})
 	defer f.Cluster.SetHandler(nil)
 	meter := startLagMeter()
+	rq0 := f.Proxy.RunQueueWait()
 	nclients := 1
 	if c.Second {
 		nclients = 2
@@ -260,7 +276,9 @@ func c09Run(f *Fixture, c *c09Case) ([]Discrepancy, bool) {
 	if len(ds) > 0 {
 		return ds, false
 	}
-	if lag > 300*time.Millisecond {
+	// overloaded machine: this process' timers fired late, or the proxy's threads sat runnable without a CPU
+	rq := f.Proxy.RunQueueWait() - rq0
+	if lag > 100*time.Millisecond || rq > 150*time.Millisecond {
 		evidence.For("C09").Add("runs_discarded_machine_overloaded", 1)
 		return nil, false
 	}
@@ -310,8 +328,8 @@ func c09Run(f *Fixture, c *c09Case) ([]Discrepancy, bool) {
 				} else {
 					got = "it never arrived"
 				}
-				ds = append(ds, disc("C09/reply-withheld", "client %d kept sending every %d us; the backends had answered request %d and all earlier ones %.0f ms after the client started, yet the reply was not delivered within %v while the client was still sending (%s; %d requests sent over %d ms, own timer lag %v)",
-					ci, c.GapUs, i+1, float64(prefixDone.Sub(s.sentAt[0]))/1e6, c09Delta, got, s.nreq, c.DurMs, lag))
+				ds = append(ds, disc("C09/reply-withheld", "client %d kept sending every %d us; the backends had answered request %d and all earlier ones %.0f ms after the client started, yet the reply was not delivered within %v while the client was still sending (%s; %d requests sent over %d ms, own timer lag %v, proxy waited %v for a CPU)",
+					ci, c.GapUs, i+1, float64(prefixDone.Sub(s.sentAt[0]))/1e6, c09Delta, got, s.nreq, c.DurMs, lag, rq))
 				return ds, false
 			}
 		}
